@@ -12,6 +12,7 @@ int env_alloc_fail_at = -1; /* which allocation fails */
 int env_alloc_count   = 0;  /* allocations attempted so far */
 int env_alloc_failed  = 0;  /* a failure was injected */
 int env_alloc_live    = 0;  /* live blocks */
+int env_alloc_small_only = 0; /* harness promise (checked): bit0 every nni_alloc, bit1 every nni_zalloc request is <= 24 bytes */
 
 #if VH_NATIVE
 #define ENV_MAXBLK 4096
@@ -52,7 +53,33 @@ env_do_alloc(size_t sz, int zero)
 		env_alloc_failed = 1;
 		return NULL;
 	}
+#if !VH_NATIVE
+	/* A heap object of symbolic size is what exhausts the bit-blaster (DESIGN
+	 * R3).  Small sizes are split into one allocation site per concrete size:
+	 * a concrete request takes exactly one branch; a symbolic request that the
+	 * solver knows to be small becomes a pointer to one of <= 24 fixed-size
+	 * objects instead of one object of symbolic size. */
+#define ENV_CASE(n)                                   \
+	case n:                                       \
+		p = zero ? calloc(1, n) : malloc(n);  \
+		break;
+	switch (sz) {
+		ENV_CASE(1) ENV_CASE(2) ENV_CASE(3) ENV_CASE(4) ENV_CASE(5) ENV_CASE(6) ENV_CASE(7) ENV_CASE(8)
+		ENV_CASE(9) ENV_CASE(10) ENV_CASE(11) ENV_CASE(12) ENV_CASE(13) ENV_CASE(14) ENV_CASE(15) ENV_CASE(16)
+		ENV_CASE(17) ENV_CASE(18) ENV_CASE(19) ENV_CASE(20) ENV_CASE(21) ENV_CASE(22) ENV_CASE(23) ENV_CASE(24)
+	default:
+		if ((env_alloc_small_only & (zero ? 2 : 1)) != 0) {
+			/* proof obligation, then cut: the harness claims every request
+			 * is <= 24 bytes, so no symbolic-size object is ever created */
+			CHECK(0, "allocation request above 24 bytes in a harness that declared small allocations only");
+			ASSUME(0);
+		}
+		p = zero ? calloc(1, sz) : malloc(sz);
+		break;
+	}
+#else
 	p = zero ? calloc(1, sz) : malloc(sz);
+#endif
 	ASSUME(p != NULL);
 	env_alloc_live++;
 #if VH_NATIVE
